@@ -27,6 +27,45 @@ def run(ctx):
     c_store_roundtrip(ctx)
     c_key_of_text(ctx)
     b_model_order(ctx)
+    b_loop_and_cancel(ctx)
+
+
+def b_loop_and_cancel(ctx):
+    """`every concurrent request completes`, also in the second event loop and after a cancelled run.  (i) An asyncio primitive binds to the event loop in which it is first
+    waited on; created once in `__init__` it makes the index unusable from any later loop (a second asyncio.run, another thread): requests beyond max_batch_size raise
+    RuntimeError (F117).  (ii) `_run_batch` is a detached task; while it waits for the batch to fill it can be cancelled (asyncio.run shutting down after a timeout / sibling
+    failure).  The shared batch state must be reset on that exit too, otherwise `_current_batch_finished_event` stays set-up-but-never-signalled and every later request joins a
+    dead batch and waits forever (F118)."""
+    t = ctx.tree.ast(BASIC)
+    init = None
+    rb = None
+    for f in ast.walk(t):
+        if isinstance(f, (ast.FunctionDef, ast.AsyncFunctionDef)):
+            if f.name == "__init__" and "_req_queue" in src(f):
+                init = f
+            if f.name == "_run_batch":
+                rb = f
+    if init is None or rb is None:
+        raise AnalysisError("BasicEmbeddingsIndex.__init__ / _run_batch not found", anchor=BASIC + "::_run_batch")
+    prims = [c for c in ast.walk(init) if isinstance(c, ast.Call) and re.match(r"^asyncio\.(Event|Lock|Condition|Semaphore|BoundedSemaphore|Queue)$", src(c.func))]
+    ctx.check("C19.b.loop-and-cancel", BASIC, "BasicEmbeddingsIndex.__init__", "no asyncio primitive is created outside a running loop", not prims,
+              "the batching events are created per batch, inside the coroutine that uses them" if not prims else
+              "`%s` is created in __init__: it binds to the first event loop that waits on it, and the index raises RuntimeError (bound to a different event loop) for every burst of "
+              "requests in a later loop" % first_line(prims[0], 50), line=(prims[0].lineno if prims else init.lineno))
+    waits = [a for a in ast.walk(rb) if isinstance(a, ast.Await) and "asyncio.wait" in src(a) and "max_batch_hold" in src(a)]
+    ctx.floor("C19.b.loop-and-cancel", BASIC, "hold wait of the batch task", len(waits), 1)
+    for w in waits:
+        protected = False
+        for p_ in _anc(w, rb):
+            if isinstance(p_, ast.Try) and any(w is x for st in p_.body for x in ast.walk(st)):
+                resets = [st for st in p_.finalbody] + [st for h in p_.handlers if h.type is None or src(h.type) in ("BaseException", "asyncio.CancelledError", "(asyncio.CancelledError,)")
+                                                        for st in h.body]
+                if any("_current_batch_finished_event" in src(st) for st in resets):
+                    protected = True
+        ctx.check("C19.b.loop-and-cancel", BASIC, "BasicEmbeddingsIndex._run_batch", "batch state is reset when the hold wait is cancelled", protected,
+                  "a cancelled batch task resets the shared batch state and completes its requests" if protected else
+                  "the hold wait is not protected: if the detached batch task is cancelled there (asyncio.run shutting down), `_current_batch_finished_event` stays non-None and unset and "
+                  "the text stays queued - every later search joins the dead batch: RuntimeError in a new loop, waiting forever in the same loop", line=w.lineno)
 
 
 def _nodes_between(cfg, a, b):
